@@ -51,7 +51,7 @@ OPERANDS = [5, -3, 0, 12345, True, 1.0, False, 0.0, 1, None, 2.0, -7.0, 2.5, 0.1
             # doubles whose shortest Python spelling is not what a cell shows: 15 significant digits, no exponent between 1e-9 and 1e15
             0.1 + 0.2, 1 / 3, 2 / 3, -1 / 7, 1e-5, 1.5e-7, 123456.789, 0.1 * 3, 1.1 * 1.1, 100 * 1.1, 4.35 * 100, 1e-9, 2.5e-9, 99999999999999.9, 0.000123456789012345678,
             dt.datetime(2024, 3, 1), dt.datetime(2024, 3, 1, 12, 0), dt.datetime(2024, 3, 1, 6, 30, 15)]      # None = blank cell (override '' is the empty text)
-NUMTEXTS = ['12', ' 12 ', '-3.5', '+7', '1e3', '1E3', '.5', '007', '1.50', '0', '-0', '3.', ' -4', '1e-2', '123456789012',
+NUMTEXTS = ['1_0', '1_000', 'inf', 'nan', 'Infinity', '-inf', '\u0663', '\uff11\uff12', '1__0', '12', ' 12 ', '-3.5', '+7', '1e3', '1E3', '.5', '007', '1.50', '0', '-0', '3.', ' -4', '1e-2', '123456789012',
             # percentages, year-month-day dates (day serial), times of day as exact binary fractions, texts that denote no number
             '50%', '12.34%', '5.6%', '250.75%', '-3%', '0.5%', '100%', '7.125%', ' 8% ', '33.333%', '0.07%', '12345.678%', '2024-01-31', '1900-03-01', '2023-12-31',
             '12:00', '06:00', '18:00:00', '03:00', '00:00', '12:30', 'abc', 'x y', '%', 'e', '-', 'twelve']
